@@ -80,6 +80,8 @@ def inst(rule, verdict, fn_or_file, construct, reason, line=0, detail=None) -> I
             line = getattr(fn_or_file, "lineno", 0) or getattr(getattr(fn_or_file, "node", None), "lineno", 0)
     elif isinstance(fn_or_file, str):
         file = fn_or_file
+    # keys are single-line (a construct quoted from a compound statement would otherwise carry its body's first lines)
+    construct = " ".join(str(construct).split())
     return Instance(rule, verdict, construct, reason, file, line, function, detail)
 
 
